@@ -81,6 +81,7 @@ package fpgo
 //@   prop C01
 //@   requires MB_WF(maybeSelf)
 //@   ensures absent: absent(maybeSelf.ref) ==> r0 == "<nil>"
+//@   ensures string: !absent(maybeSelf.ref) && convIsString(maybeSelf.ref) ==> r0 == strof(maybeSelf.ref)
 
 // ToPtr never panics (the reflect preconditions inside it are the obligations)
 //@ func (someDef).ToPtr
